@@ -1,4 +1,5 @@
 import ScnrVerif.Proofs.Iter
+import ScnrVerif.Proofs.FullScanner
 /-!
 # C06 — scanner modes switch exactly on configured token types
 
@@ -53,6 +54,29 @@ theorem setOffset_keeps_mode (it : Iter) (o : Nat) : (it.setOffset o).mode = it.
 
 /-- `mode_name` reports the configured name. -/
 theorem modeName_spec (cfg : List ModeCfg) (i : Nat) : modeName cfg i = cfg[i]?.map (·.name) := rfl
+
+/-! ## The whole scanner (model of compiler, finder, iterator and mode switching together)
+
+For every configuration (any number of modes, patterns with optional positive or negative
+lookaheads, any transitions), every class function and every input. -/
+
+/-- in every mode the finder of the compiled scanner follows the pattern-level trailing-context rule
+    of *that mode's* patterns (token types distinct within a mode) -/
+theorem whole_scanner_finder (ms : List CMode) (hn : ∀ md ∈ ms, (md.pats.map (·.tid)).Nodup)
+    (cm : Nat → Nat → Bool) (m : Nat) (w : List Nat) :
+    match ms[m]? with
+    | none => modelFinder (compileScanner ms) cm m w = none
+    | some md => PFindOK cm md.pats w (modelFinder (compileScanner ms) cm m w) :=
+  scanner_finder_spec ms hn cm m w
+
+/-- the token stream of a fresh iterator is the reference scan driven by that finder: the patterns
+    used for a token are those of the current mode, the mode changes exactly on configured token
+    types, unmatched characters are skipped one at a time -/
+theorem whole_scanner_tokens (ms : List CMode) (cm : Nat → Nat → Bool) (input : List Nat) (n : Nat)
+    (hlen : input.length < n) :
+    Iter.run (scannerCfg ms) (modelFinder (compileScanner ms) cm) n (Iter.new input) =
+      scanFrom (scannerCfg ms) (modelFinder (compileScanner ms) cm) 0 input 0 :=
+  scanner_end_to_end ms cm input n hlen
 
 /-! Non-vacuity: two modes; token 1 switches 0 → 1, token 2 switches back. Finder: `a` ↦ 1 in
     mode 0, `b` ↦ 2 in mode 1 (single characters). -/
